@@ -1,10 +1,10 @@
 (** C04 — closed-form syntactic lints fire exactly on their documented condition.  Statements only.
     Modelled and proved: divide_by_zero, compare_nan, suspicious_reverse_loop, empty_if, empty_loop,
     unbalanced_assignments, mixed_table, duplicate_keys, parenthese_conditions, constant_table_comparison,
-    type_check_inside_call and the counting of mismatched_arg_count (12 of 17).  The other five lints
-    (if_same_then_else, ifs_same_cond, almost_swapped, bad_string_escape, multiple_statements) are covered by
+    type_check_inside_call, the counting of mismatched_arg_count and the scan of bad_string_escape (13 of 17).
+    The other four lints (if_same_then_else, ifs_same_cond, almost_swapped, multiple_statements) are covered by
     template verdicts in the correspondence run (testing, not proof). *)
-From Selene Require Import Lints.Closed Lints.ClosedSpec.
+From Selene Require Import Lints.Closed Lints.ClosedSpec Lints.Escape.
 From Coq Require Import Lia.
 
 (** never reported on a false condition, literals judged by value *)
@@ -128,3 +128,17 @@ Theorem C04_typecheck_canonical : forall chunk name x raw rest ss rng, t_name na
   (1 <= n_typecheck (lint_counts chunk))%nat.
 Proof. exact typecheck_canonical. Qed.
 Print Assumptions C04_typecheck_canonical.
+
+(** bad_string_escape: whatever the string, every reported range is non-empty, lies inside the literal
+    (given that every escape match fits, which valid UTF-8 guarantees and the run checks) and starts at a
+    backslash *)
+Theorem C04_escape_in_bounds : forall q rb l off skip,
+  scan_fits q rb l skip = true ->
+  forall s e, In (s, e) (scan q rb l off skip) -> (off <= s)%nat /\ (s < e)%nat /\ (e <= off + List.length l)%nat.
+Proof. exact scan_in_bounds. Qed.
+Print Assumptions C04_escape_in_bounds.
+
+Theorem C04_escape_starts_at_backslash : forall q rb l off skip s e,
+  In (s, e) (scan q rb l off skip) -> nth_error l (s - off) = Some 92%N.
+Proof. exact scan_starts_at_backslash. Qed.
+Print Assumptions C04_escape_starts_at_backslash.
